@@ -23,6 +23,99 @@ Proof.
   eapply InvPos_core; [|exact I]. repeat split.
 Qed.
 
+
+(** ** More primitives: replacing the last token, the mode stack, the EOF token *)
+Definition st_upd (X : st) (ch : TokenChannel) (ty : TokenType) (pl : payload) : st :=
+  match w_toks (s_buf X) with
+  | t :: r => X <| s_buf := (s_buf X) <| w_toks := mkTok ch ty (t_byte t) (t_start t) (t_line t) pl :: r |> |>
+  | [] => X
+  end.
+
+Lemma ex_upd X t ts ch ty pl : w_toks (s_buf X) = t :: ts ->
+  exec false (OUpdateLastToken ch ty pl) X = Done tt (st_upd X ch ty pl).
+Proof. intros H. unfold exec, st_upd. rewrite H. reflexivity. Qed.
+
+Lemma ex_push_mode s m : exec false (OPushMode m) s = Done tt (Core.push_mode s m).
+Proof. reflexivity. Qed.
+
+Lemma ex_pop_mode s : exec false OPopMode s = Done tt (Core.pop_mode s).
+Proof. reflexivity. Qed.
+
+Definition st_pop (s : st) (ms : list mode) : st := s <| s_modes := ms |> <| s_nmodes := s_nmodes s - 1 |>.
+
+Lemma pop_mode_cons s m ms : s_modes s = m :: ms -> Core.pop_mode s = st_pop s ms.
+Proof. intros H. unfold Core.pop_mode. rewrite H. reflexivity. Qed.
+
+Definition st_eof (s : st) : st :=
+  let s' := note_observe_lines s in
+  let b := s_buf s' in
+  s' <| s_buf := b <| w_toks := mkTok CH_DEFAULT T_EOF (cur_byte s) (cur_char s) (w_nlines (s_buf s) - 1) PNone :: w_toks b |>
+                   <| w_ntoks := w_ntoks b + 1 |> |>.
+
+Lemma ex_final_eof s : lines_pos s -> exec false OFinalEOF s = Done tt (st_eof s).
+Proof.
+  intros [p H]. unfold exec, last_line_or_add, last_line. cbn [s_buf note_observe_lines].
+  replace (w_nlines (s_buf (note_observe_lines s))) with (w_nlines (s_buf s)) by reflexivity.
+  rewrite H. change (N.pos p =? 0) with false. cbv iota. unfold st_eof. rewrite H. reflexivity.
+Qed.
+
+(** the opening quote of a string expression in open code *)
+Definition st_dqstart (s : st) (r : list char) : st :=
+  st_pend (Core.push_mode (st_emit (st_adv (st_start s) c_dquote r) CH_DEFAULT T_StringExprStart PNone) (MStringExpr true)) true.
+
+Lemma run_dquote_start F msep s r b :
+  s_modes s = [MDefault] -> lines_pos s -> c_rest (s_cur s) = c_dquote :: r -> s_pstat s = [b] ->
+  run false (lex_token F msep c_dquote) s = Done tt (st_dqstart s r).
+Proof.
+  intros Hm Hl Hr Hp. open_default Hm Hl. close_tests.
+  unfold lex_string_expression_start, assert_dbg, advance_, emit, emit_token, Lexer1.push_mode, set_pending_stat, ret.
+  cbn [bindP do run]. rewrite ex_assert. cbn [run]. rewrite (ex_advance (st_start s) c_dquote r Hr). cbn [run bindP do].
+  rewrite ex_emit. cbn [run]. rewrite ex_push_mode. cbn [run].
+  rewrite (ex_set_pending _ true b []); [reflexivity|]. exact Hp.
+Qed.
+
+(** the end of the text right after an opening quote: the literal is completed by [finalize_lexing] *)
+Definition st_dqfin (s1 : st) : st :=
+  let s3 := st_upd (st_start (st_pop s1 [MDefault])) CH_DEFAULT T_StringLiteral PNone in
+  st_eof (st_pop (Core.emit_error s3 E_UnterminatedStringLiteral) []).
+
+Lemma run_dqfin s1 b0 st0 ln0 ts fz :
+  s_modes s1 = [MStringExpr true; MDefault] -> lines_pos s1 -> c_rest (s_cur s1) = [] ->
+  w_toks (s_buf s1) = mkTok CH_DEFAULT T_StringExprStart b0 st0 ln0 PNone :: ts ->
+  run false (finalize_lexing (S (S fz))) s1 = Done tt (st_dqfin s1).
+Proof.
+  intros Hm Hl Hr Ht. unfold finalize_lexing. rewrite run_bindP. cbn [finalize_loop]. unfold get, Lexer1.pop_mode, start_token.
+  cbn [bindP do run]. rewrite ex_get. cbn [run]. change (s_modes (scrub s1)) with (s_modes s1). rewrite Hm.
+  cbn [bindP do run]. rewrite ex_pop_mode, (pop_mode_cons s1 _ _ Hm). cbn [run].
+  rewrite (ex_start_token (st_pop s1 [MDefault]) Hl). cbn [run].
+  unfold handle_unterminated_str_expr, assert_dbg, get, emit_error, Lexer1.pop_mode. cbn [bindP do run]. rewrite ex_assert. cbn [run].
+  rewrite ex_get. cbn [run].
+  set (s2 := st_start (st_pop s1 [MDefault])).
+  assert (Ht2 : w_toks (s_buf s2) = mkTok CH_DEFAULT T_StringExprStart b0 st0 ln0 PNone :: ts) by exact Ht.
+  replace (last_is_start (scrub s2)) with true by (unfold last_is_start, last_tok_type, last_tok; change (s_buf (scrub s2)) with (s_buf s2); rewrite Ht2; reflexivity).
+  cbn [bindP do run]. rewrite (ex_upd s2 _ _ _ _ _ Ht2). cbn [run]. rewrite ex_emit_error. cbn [run].
+  rewrite ex_pop_mode.
+  rewrite (pop_mode_cons _ MDefault []) by (unfold st_upd; rewrite Ht2; reflexivity). cbn [run].
+  rewrite ex_get. cbn [run].
+  match goal with |- context [s_modes (scrub (st_pop ?X []))] => change (s_modes (scrub (st_pop X []))) with (@nil mode) end.
+  unfold ret. cbn [run].
+  rewrite ex_final_eof; [reflexivity|]. destruct Hl as [p Hp]. exists p.
+  unfold st_upd. rewrite Ht2. exact Hp.
+Qed.
+
+Lemma dqfin_views bb s1 b0 st0 ln0 ts :
+  w_toks (s_buf s1) = mkTok CH_DEFAULT T_StringExprStart b0 st0 ln0 PNone :: ts ->
+  w_toks (s_buf (st_dqfin s1)) =
+    mkTok CH_DEFAULT T_EOF (cur_byte s1) (cur_char s1) (w_nlines (s_buf s1) - 1) PNone ::
+    mkTok CH_DEFAULT T_StringLiteral b0 st0 ln0 PNone :: ts /\
+  map (ev bb) (s_errs (st_dqfin s1)) = (E_UnterminatedStringLiteral, cur_byte s1 + bb) :: map (ev bb) (s_errs s1) /\
+  w_lit (s_buf (st_dqfin s1)) = w_lit (s_buf s1) /\ s_aborted (st_dqfin s1) = s_aborted s1.
+Proof.
+  intros Ht. unfold st_dqfin. set (s2 := st_start (st_pop s1 [MDefault])).
+  assert (Ht2 : w_toks (s_buf s2) = mkTok CH_DEFAULT T_StringExprStart b0 st0 ln0 PNone :: ts) by exact Ht.
+  unfold st_upd. rewrite Ht2. repeat split.
+Qed.
+
 Section Whole.
   Variable text : list char.
   Variable bb : N.
@@ -71,10 +164,63 @@ Section Whole.
     - exact Hrun.
   Qed.
 
+  (** the text ends right after an opening double quote: one iteration, the rest is done by [finalize_lexing] *)
+  Lemma lexeme_dquote_last pos rs :
+    lexeme [c_dquote] pos rs =
+    ([mkRtok T_StringLiteral CH_DEFAULT pos PNone], [mkRerr E_UnterminatedStringLiteral (pos + 1)], 1,
+     mkRstate true (Some T_StringLiteral) (rs_lit rs) (rs_litlen rs)).
+  Proof. unfold lexeme. close_tests. reflexivity. Qed.
+
+  Lemma dquote_last s rs f last :
+    OC text s rs -> c_rest (s_cur s) = [c_dquote] -> (1 < F)%nat -> s_iters s + 1 <= limit ->
+    let s1 := st_dqstart (s <| s_iters := s_iters s + 1 |>) [] in
+    run false (main_loop F msep limit (S (S f)) last) s = Done false s1 /\
+    (forall fz, run false (finalize_lexing (S (S fz))) s1 = Done tt (st_dqfin s1)) /\
+    map (tv bb) (w_toks (s_buf (st_dqfin s1))) =
+      (T_EOF, CH_DEFAULT, cur_byte s + 1 + bb, PNone) :: (T_StringLiteral, CH_DEFAULT, cur_byte s + bb, PNone) :: map (tv bb) (w_toks (s_buf s)) /\
+    (exists te tr, w_toks (s_buf (st_dqfin s1)) = te :: tr /\ t_type te = T_EOF) /\
+    map (ev bb) (s_errs (st_dqfin s1)) = (E_UnterminatedStringLiteral, cur_byte s + 1 + bb) :: map (ev bb) (s_errs s) /\
+    w_lit (s_buf (st_dqfin s1)) = w_lit (s_buf s) /\ s_aborted (st_dqfin s1) = s_aborted s.
+  Proof.
+    intros HOC Hr HF Hlim s1.
+    set (si := s <| s_iters := s_iters s + 1 |>) in *.
+    assert (Hrun1 : run false (lex_token F msep c_dquote) si = Done tt s1).
+    { apply (run_dquote_start F msep si [] (rs_pending rs)).
+      - exact (oc_modes _ _ _ HOC).
+      - exact (oc_lines _ _ _ HOC).
+      - exact Hr.
+      - exact (oc_pstat _ _ _ HOC). }
+    assert (Hm1 : s_modes s1 = [MStringExpr true; MDefault]).
+    { change (s_modes s1) with (MStringExpr true :: s_modes s). rewrite (oc_modes _ _ _ HOC). reflexivity. }
+    assert (Hl1 : lines_pos s1) by exact (oc_lines _ _ _ HOC).
+    assert (Ht1 : w_toks (s_buf s1) = mkTok CH_DEFAULT T_StringExprStart (cur_byte s) (cur_char s) (w_nlines (s_buf s) - 1) PNone :: w_toks (s_buf s))
+      by reflexivity.
+    assert (Hrem : c_rem (s_cur s) = 1 /\ 1 <= s_srclen s).
+    { destruct (ip_cur _ _ (oc_inv _ _ _ HOC)) as (pre & E & _ & R). rewrite Hr in R, E. split; [exact R|].
+      rewrite (ip_srclen _ _ (oc_inv _ _ _ HOC)), E, blen_app. cbn [blen]. change (utf8_len c_dquote) with 1. lia. }
+    assert (Hcb1 : cur_byte s1 = cur_byte s + 1).
+    { change (cur_byte s1) with (s_srclen s - (c_rem (s_cur s) - utf8_len c_dquote)). unfold cur_byte.
+      change (utf8_len c_dquote) with 1. lia. }
+    split.
+    { rewrite (main_loop_step F msep limit (S f) last s c_dquote s1).
+      - apply main_loop_end. reflexivity.
+      - unfold peek. rewrite Hr. reflexivity.
+      - apply N.ltb_ge. lia.
+      - exact Hrun1. }
+    split; [intros fz; exact (run_dqfin s1 _ _ _ _ fz Hm1 Hl1 eq_refl Ht1)|].
+    destruct (dqfin_views bb s1 _ _ _ _ Ht1) as (V1 & V2 & V3 & V4).
+    split; [|split; [|split; [|split]]].
+    - rewrite V1. cbn [map tv t_type t_chan t_byte t_payload]. rewrite Hcb1. reflexivity.
+    - eexists _, _. split; [exact V1|reflexivity].
+    - rewrite V2, Hcb1. reflexivity.
+    - rewrite V3. reflexivity.
+    - rewrite V4. reflexivity.
+  Qed.
+
   (** the texts considered: a suffix-closed condition (macro-free, and whatever else the proved classes need) *)
   Variable P : list char -> bool.
   Hypothesis P_tail : forall c r, P (c :: r) = true -> P r = true.
-  Hypothesis classes : forall l, l <> [] -> P l = true -> lexeme_sim l.
+  Hypothesis classes : forall l, l <> [] -> P l = true -> l <> [c_dquote] -> lexeme_sim l.
 
   Lemma P_skipn k : forall l, P l = true -> P (skipn_N k l) = true.
   Proof.
@@ -82,57 +228,87 @@ Section Whole.
     cbn [skipn_N]. apply IH. exact (P_tail c r H).
   Qed.
 
-
   Lemma loop_sim : forall m s rs f fr last acc_t acc_e,
     List.length (c_rest (s_cur s)) = m -> OC text s rs -> P (c_rest (s_cur s)) = true ->
     (m < F)%nat -> s_iters s + 2 * N.of_nat m <= limit -> (2 * m < f)%nat -> (m < fr)%nat ->
     map (tv bb) (w_toks (s_buf s)) = map rv acc_t -> map (ev bb) (s_errs s) = map rve acc_e ->
     exists s_end rs_end T E,
       run false (main_loop F msep limit f last) s = Done false s_end /\
-      reflex_loop fr (c_rest (s_cur s)) (cur_byte s + bb) rs acc_t acc_e =
-        (rev (mkRtok T_EOF CH_DEFAULT (cur_byte s_end + bb) PNone :: T), rev E, rs_end) /\
-      OC text s_end rs_end /\ c_rest (s_cur s_end) = [] /\
-      map (tv bb) (w_toks (s_buf s_end)) = map rv T /\ map (ev bb) (s_errs s_end) = map rve E /\
-      s_aborted s_end = s_aborted s.
+      reflex_loop fr (c_rest (s_cur s)) (cur_byte s + bb) rs acc_t acc_e = (rev T, rev E, rs_end) /\
+      forall fz, exists s_fin,
+        run false (finalize_lexing (S (S fz))) s_end = Done tt s_fin /\
+        (exists te tr, w_toks (s_buf s_fin) = te :: tr /\ t_type te = T_EOF) /\
+        map (tv bb) (w_toks (s_buf s_fin)) = map rv T /\ map (ev bb) (s_errs s_fin) = map rve E /\
+        w_lit (s_buf s_fin) = rs_lit rs_end /\
+        s_aborted s_fin = s_aborted s.
   Proof.
     induction m as [m IH] using lt_wf_ind. intros s rs f fr last acc_t acc_e Hm HOC Hmf HF Hlim Hfuel Hfr Ht He.
     destruct (c_rest (s_cur s)) as [|c r] eqn:Hr.
     - (* end of input *)
       destruct f as [|f]; [lia|]. destruct fr as [|fr]; [lia|].
-      exists s, rs, acc_t, acc_e. split; [apply main_loop_end; unfold peek; rewrite Hr; reflexivity|].
-      split; [reflexivity|]. split; [exact HOC|]. split; [exact Hr|]. split; [exact Ht|]. split; [exact He|reflexivity].
-    - pose proof (classes (c :: r) ltac:(discriminate) Hmf s rs HOC Hr ltac:(cbn [List.length] in *; lia)) as Hc.
-      destruct fr as [|fr]; [lia|]. cbn [reflex_loop].
-      destruct (lexeme (c :: r) (cur_byte s + bb) rs) as [[[ts es] n] rs'].
-      destruct Hc as (k & s' & Hk1 & Hk2 & Hn1 & HOC' & Hrest' & Htoks' & Herrs' & Hit' & Hab' & Hloop).
-      assert (Hlen : len (c :: r) = N.of_nat m) by (unfold len; rewrite Hm; reflexivity).
-      assert (Hk3 : (k <= 2 * m)%nat) by lia.
-      destruct (Hloop ltac:(lia) (f - k)%nat last) as (last' & Hstep).
-      replace (k + (f - k))%nat with f in Hstep by lia. rewrite Hstep.
-      set (m' := List.length (c_rest (s_cur s'))).
-      assert (Hm'eq : m' = (m - N.to_nat n)%nat).
-      { subst m'. rewrite Hrest', skipn_N_length. rewrite Hm. reflexivity. }
-      assert (Hm' : (m' < m)%nat) by lia.
-      assert (Hbyte : cur_byte s' + bb = cur_byte s + bb + blen (firstn (N.to_nat n) (c :: r))).
-      { pose proof (cur_byte_rest text s (oc_inv _ _ _ HOC)) as B1.
-        pose proof (cur_byte_rest text s' (oc_inv _ _ _ HOC')) as B2.
-        rewrite Hr in B1. rewrite Hrest' in B2.
-        assert (Hsplit : blen (c :: r) = blen (firstn (N.to_nat n) (c :: r)) + blen (skipn_N (N.to_nat n) (c :: r))).
-        { clear. generalize (N.to_nat n) as j. intros j. revert j. generalize (c :: r) as l. clear.
-          induction l as [|x l IHl]; intros [|j]; cbn [firstn skipn_N blen]; try lia. rewrite (IHl j). lia. }
-        lia. }
-      destruct (IH m' Hm' s' rs' (f - k)%nat fr last' (rev_append ts acc_t) (rev_append es acc_e) eq_refl HOC')
-        as (s_end & rs_end & T & E & Hrun & Hrf & HOCe & Hreste & Hte & Hee & Habe).
-      + rewrite Hrest'. apply P_skipn. exact Hmf.
-      + lia.
-      + rewrite Hit'. lia.
-      + lia.
-      + lia.
-      + rewrite Htoks', Ht. rewrite rev_append_rev, map_app, map_rev. reflexivity.
-      + rewrite Herrs', He. rewrite rev_append_rev, map_app, map_rev. reflexivity.
-      + exists s_end, rs_end, T, E. split; [exact Hrun|]. split.
-        * rewrite <- Hrf. rewrite Hrest', Hbyte. reflexivity.
-        * split; [exact HOCe|]. split; [exact Hreste|]. split; [exact Hte|]. split; [exact Hee|]. rewrite Habe. exact Hab'.
+      destruct (oc_lines _ _ _ HOC) as [p Hp].
+      exists s, rs, (mkRtok T_EOF CH_DEFAULT (cur_byte s + bb) PNone :: acc_t), acc_e.
+      split; [apply main_loop_end; unfold peek; rewrite Hr; reflexivity|].
+      split; [reflexivity|]. intros fz.
+      destruct (finalize_default_exact fz s p (oc_modes _ _ _ HOC) Hp) as (s2 & Hf0 & Htok2 & Ho2 & Hab2).
+      exists s2. split; [exact Hf0|].
+      split; [eexists _, _; split; [exact Htok2|reflexivity]|].
+      pose proof (f_equal o2_lit Ho2) as L2. pose proof (f_equal o2_errs Ho2) as E2.
+      cbn [observe2 o2_lit o2_errs] in L2, E2.
+      split; [rewrite Htok2; cbn [map]; rewrite Ht; reflexivity|].
+      split; [rewrite E2; exact He|]. split; [rewrite L2; exact (oc_lit _ _ _ HOC)|exact Hab2].
+    - destruct (list_eq_dec N.eq_dec (c :: r) [c_dquote]) as [Edq|Ndq].
+      + (* an opening quote at the very end *)
+        inversion Edq; subst c r. cbn [List.length] in Hm. subst m.
+        destruct f as [|[|f]]; try lia. destruct fr as [|[|fr]]; try lia.
+        destruct (dquote_last s rs f last HOC Hr ltac:(lia) ltac:(lia)) as (R1 & R2 & R3 & R4 & R5 & R6 & R7).
+        cbv zeta in *. set (s1 := st_dqstart (s <| s_iters := s_iters s + 1 |>) []) in *.
+        exists s1, (mkRstate true (Some T_StringLiteral) (rs_lit rs) (rs_litlen rs)),
+          (mkRtok T_EOF CH_DEFAULT (cur_byte s + bb + 1) PNone :: mkRtok T_StringLiteral CH_DEFAULT (cur_byte s + bb) PNone :: acc_t),
+          (mkRerr E_UnterminatedStringLiteral (cur_byte s + bb + 1) :: acc_e).
+        split; [exact R1|].
+        split.
+        { cbn [reflex_loop]. rewrite lexeme_dquote_last. cbn [N.to_nat]. change (Pos.to_nat 1) with 1%nat. cbn [skipn_N firstn rev_append blen].
+          change (utf8_len c_dquote) with 1. rewrite N.add_0_r. reflexivity. }
+        intros fz. exists (st_dqfin s1). split; [exact (R2 fz)|].
+        split; [exact R4|].
+        split; [rewrite R3; cbn [map rv rt_type rt_chan rt_byte rt_payload]; rewrite Ht; replace (cur_byte s + 1 + bb) with (cur_byte s + bb + 1) by lia; reflexivity|].
+        split; [rewrite R5; cbn [map rve re_kind re_byte]; rewrite He; replace (cur_byte s + 1 + bb) with (cur_byte s + bb + 1) by lia; reflexivity|].
+        split; [rewrite R6; exact (oc_lit _ _ _ HOC)|exact R7].
+      + pose proof (classes (c :: r) ltac:(discriminate) Hmf Ndq s rs HOC Hr ltac:(cbn [List.length] in *; lia)) as Hc.
+        destruct fr as [|fr]; [lia|]. cbn [reflex_loop].
+        destruct (lexeme (c :: r) (cur_byte s + bb) rs) as [[[ts es] n] rs'].
+        destruct Hc as (k & s' & Hk1 & Hk2 & Hn1 & HOC' & Hrest' & Htoks' & Herrs' & Hit' & Hab' & Hloop).
+        assert (Hlen : len (c :: r) = N.of_nat m) by (unfold len; rewrite Hm; reflexivity).
+        assert (Hk3 : (k <= 2 * m)%nat) by lia.
+        destruct (Hloop ltac:(lia) (f - k)%nat last) as (last' & Hstep).
+        replace (k + (f - k))%nat with f in Hstep by lia. rewrite Hstep.
+        set (m' := List.length (c_rest (s_cur s'))).
+        assert (Hm'eq : m' = (m - N.to_nat n)%nat).
+        { subst m'. rewrite Hrest', skipn_N_length. rewrite Hm. reflexivity. }
+        assert (Hm' : (m' < m)%nat) by lia.
+        assert (Hbyte : cur_byte s' + bb = cur_byte s + bb + blen (firstn (N.to_nat n) (c :: r))).
+        { pose proof (cur_byte_rest text s (oc_inv _ _ _ HOC)) as B1.
+          pose proof (cur_byte_rest text s' (oc_inv _ _ _ HOC')) as B2.
+          rewrite Hr in B1. rewrite Hrest' in B2.
+          assert (Hsplit : blen (c :: r) = blen (firstn (N.to_nat n) (c :: r)) + blen (skipn_N (N.to_nat n) (c :: r))).
+          { clear. generalize (N.to_nat n) as j. intros j. revert j. generalize (c :: r) as l. clear.
+            induction l as [|x l IHl]; intros [|j]; cbn [firstn skipn_N blen]; try lia. rewrite (IHl j). lia. }
+          lia. }
+        destruct (IH m' Hm' s' rs' (f - k)%nat fr last' (rev_append ts acc_t) (rev_append es acc_e) eq_refl HOC')
+          as (s_end & rs_end & T & E & Hrun & Hrf & Hfin).
+        * rewrite Hrest'. apply P_skipn. exact Hmf.
+        * lia.
+        * rewrite Hit'. lia.
+        * lia.
+        * lia.
+        * rewrite Htoks', Ht. rewrite rev_append_rev, map_app, map_rev. reflexivity.
+        * rewrite Herrs', He. rewrite rev_append_rev, map_app, map_rev. reflexivity.
+        * exists s_end, rs_end, T, E. split; [exact Hrun|]. split.
+          -- rewrite <- Hrf. rewrite Hrest', Hbyte. reflexivity.
+          -- intros fz. destruct (Hfin fz) as (s_fin & Hf & Heof & Hte & Hee & Hlit & Habe).
+             exists s_fin. split; [exact Hf|]. split; [exact Heof|]. split; [exact Hte|]. split; [exact Hee|]. split; [exact Hlit|].
+             rewrite Habe. exact Hab'.
   Qed.
 
   (** the whole run on the text *)
@@ -156,7 +332,7 @@ End Whole.
 
 Theorem lex_text_is_reflex text bb bc msep (P : list char -> bool) :
   (forall c r, P (c :: r) = true -> P r = true) ->
-  (forall l, l <> [] -> P l = true ->
+  (forall l, l <> [] -> P l = true -> l <> [c_dquote] ->
      lexeme_sim text bb (S (List.length text)) msep (8 * (blen text + bb) + 64) l) ->
   P text = true ->
   let r := lex_text (mkCfg false msep) bb bc text in
@@ -169,7 +345,8 @@ Proof.
   set (n := List.length text).
   destruct (loop_sim text bb (S n) msep (8 * (blen text + bb) + 64) P Ptail classes n (init text) rs0
                      (8 * (4 * n) + 64 + 2 + 24)%nat (S n) (blen text + bb, [MDefault]) [] []
-                     eq_refl (OC_init text eq_refl) Hmf ltac:(lia)) as (s1 & rs1 & T & E & Hrun & Hrf & HOC1 & Hrest1 & Ht1 & He1 & Hab1).
+                     eq_refl (OC_init text eq_refl) Hmf ltac:(lia))
+    as (s1 & rs1 & T & E & Hrun & Hrf & Hfin).
   - cbn [init s_iters]. assert (N.of_nat n <= blen text); [|lia].
     subst n. clear. induction text as [|c t IH]; [cbn; lia|]. cbn [List.length blen]. pose proof (utf8_len_pos c). lia.
   - lia.
@@ -179,17 +356,14 @@ Proof.
   - change (cur_byte (init text) + bb) with (blen text - blen text + bb) in Hrf.
     replace (blen text - blen text + bb) with bb in Hrf by lia.
     change (c_rest (s_cur (init text))) with text in Hrf. fold n. rewrite Hrf. rewrite Hrun.
-    destruct (oc_lines _ _ _ HOC1) as [p Hp].
-    destruct (finalize_default_exact (N.to_nat (s_nmodes s1)) s1 p (oc_modes _ _ _ HOC1) Hp) as (s2 & Hfin & Htok2 & Ho2 & Hab2).
-    rewrite Hfin. cbn [lr_outcome lr_state lr_buffer lr_errors].
-    pose proof (f_equal o2_lit Ho2) as L2. pose proof (f_equal o2_errs Ho2) as E2.
-    cbn [observe2 o2_lit o2_errs] in L2, E2.
-    split; [reflexivity|]. split; [rewrite Hab2, Hab1; reflexivity|]. split; [|split].
-    + rewrite into_detached_toks, map_map. unfold detached_toks. rewrite Htok2. cbn [t_type].
+    destruct (Hfin (N.to_nat (s_nmodes s1))) as (s2 & Hf2 & (te & tr & Htok2 & Hte) & Ht2 & He2 & Hl2 & Hab2).
+    rewrite Hf2. cbn [lr_outcome lr_state lr_buffer lr_errors].
+    split; [reflexivity|]. split; [rewrite Hab2; reflexivity|]. split; [|split].
+    + rewrite into_detached_toks, map_map. unfold detached_toks. rewrite Htok2. rewrite Hte.
       replace (tt_eqb T_EOF T_EOF) with true by reflexivity.
       rewrite (map_ext _ (tv bb) (fun t => tv0_shift bb bc t)).
-      rewrite !map_rev. cbn [map]. rewrite Ht1. reflexivity.
+      rewrite <- Htok2. rewrite !map_rev. rewrite Ht2. reflexivity.
     + rewrite map_map. rewrite (map_ext _ (ev bb) (fun e => ev0_shift bb bc e)).
-      rewrite map_rev, E2, He1, <- map_rev. reflexivity.
-    + unfold into_detached. cbn [b_lit]. rewrite L2. rewrite (oc_lit _ _ _ HOC1). reflexivity.
+      rewrite map_rev, He2, <- map_rev. reflexivity.
+    + unfold into_detached. cbn [b_lit]. rewrite Hl2. reflexivity.
 Qed.
